@@ -133,6 +133,12 @@ def listings(ctx):
     md = store.metadata()
     rng = ctx.rng
     fams = sorted({v['family'] for v in md.values()})
+    # substrings with the characters the index keys escape ('*', '/'), capitals, parentheses: on their own, every run
+    for sub in ('31G*', 'G**', '(pt/sf', 'pV', 'DEF2', '+g', 'z/'):
+        w = impl.call(bse.filter_basis_sets, substr=sub)
+        want = ('ok', '\n'.join(v['display_name'] for v in w[1].values())) if w[0] == 'ok' else w
+        opt = rng.choice(['-s', '--substr'])
+        expect(ctx, ['list-basis-sets', '-n', opt, sub], want, 'list-basis-sets', 'list-basis-sets:substr', {'kind': 'cli', 'argv': ['list-basis-sets', '-n', opt, sub]})
     for _ in range(ctx.budget(12, 200)):
         argv = ['list-basis-sets', '-n']
         kw = {}
